@@ -308,5 +308,6 @@ pub fn run(args: &Args) -> i32 {
     l0(&rep, args);
     reload(&rep, args);
     crate::props::c05_l2::run_l2(&rep, args);
+    crate::props::h3_l2::c05_h3(&rep, args);
     rep.finish()
 }
